@@ -584,6 +584,71 @@ def split_versions(fn, known_locals):
   return fn
 
 
+def coalesce_copies(fn, known_locals):
+  """an unknown local P that lives only between `P = ...` and a final plain
+  copy `Y = P` in one block, while Y is not touched in between, IS Y: P is
+  renamed to Y (this undoes the parameter binding of an inlined helper that
+  re-assigns its parameter)"""
+  params = {a.arg for a in ast.walk(fn.args) if isinstance(a, ast.arg)}
+  again = True
+  rounds = 0
+  while again and rounds < 10:
+    again = False
+    rounds += 1
+    for owner in ast.walk(fn):
+      for f in ('body', 'orelse', 'finalbody'):
+        block = getattr(owner, f, None)
+        if not (isinstance(block, list) and block and isinstance(
+            block[0], ast.stmt)):
+          continue
+        for j, st in enumerate(block):
+          if not (isinstance(st, ast.Assign) and len(st.targets) == 1 and
+                  isinstance(st.targets[0], ast.Name) and isinstance(
+                      st.value, ast.Name)):
+            continue
+          p_, y = st.value.id, st.targets[0].id
+          if p_ == y or p_ in known_locals or p_ in params:
+            continue
+          total = sum(1 for n in ast.walk(fn)
+                      if isinstance(n, ast.Name) and n.id == p_)
+          occ = [k for k in range(j + 1) if any(
+              isinstance(n, ast.Name) and n.id == p_
+              for n in ast.walk(block[k]))]
+          inside = sum(1 for k in range(j + 1) for n in ast.walk(block[k])
+                       if isinstance(n, ast.Name) and n.id == p_)
+          if inside != total or not occ:
+            continue
+          i0 = occ[0]
+          first = block[i0]
+          if not (isinstance(first, ast.Assign) and len(first.targets) == 1
+                  and isinstance(first.targets[0], ast.Name) and
+                  first.targets[0].id == p_):
+            continue
+          # Y untouched between the first definition of P and the copy
+          # (reading Y in that very first definition is fine: P = f(Y))
+          touched = any(isinstance(n, ast.Name) and n.id == y
+                        for k in range(i0 + 1, j)
+                        for n in ast.walk(block[k]))
+          if touched:
+            continue
+          for k in range(i0, j + 1):
+            for n in ast.walk(block[k]):
+              if isinstance(n, ast.Name) and n.id == p_:
+                n.id = y
+          new_block = [b for b in block if not (
+              isinstance(b, ast.Assign) and len(b.targets) == 1 and
+              isinstance(b.targets[0], ast.Name) and isinstance(
+                  b.value, ast.Name) and b.value.id == b.targets[0].id)]
+          block[:] = new_block or [ast.copy_location(ast.Pass(), st)]
+          again = True
+          break
+        if again:
+          break
+      if again:
+        break
+  return fn
+
+
 def substitute_new_locals(fn, known_locals):
   """single-assignment locals that the inventory does not know are replaced
   by their defining expression"""
@@ -793,6 +858,7 @@ def normalise_module(modname, tree):
       before = local_names(fn)
       if before - known:
         split_tuple_assignments(fn)
+        coalesce_copies(fn, known)
         split_versions(fn, known)
         substitute_new_locals(fn, known)
       if inv[q].get('returns'):
